@@ -32,3 +32,12 @@ pub fn shim_str_last_char_s(s: &str) -> (r: Option<char>)
 pub assume_specification<T, U, F: FnOnce(T) -> U> [Option::<T>::map_or] (o: Option<T>, default: U, f: F) -> (r: U)
     requires o matches Some(x) ==> f.requires((x,)),
     ensures o is None ==> r == default, o matches Some(x) ==> f.ensures((x,), r);
+// TRUSTED (C19 round trip of ASCII names): the UTF-8 encoding of an all-ASCII string is its characters as bytes (RFC 3629),
+// and CP437 is the identity on bytes below 0x80 (decided for `to_char` by Kani: cp437 group, to_char_table, all 256 bytes;
+// the per-byte-map shape of from_cp437 is the bounded Kani stand-in)
+pub broadcast axiom fn axiom_utf8_ascii(s: Seq<char>)
+    requires forall|i: int| 0 <= i < s.len() ==> (s[i] as u32) < 128,
+    ensures (#[trigger] utf8(s)).len() == s.len(), forall|i: int| 0 <= i < s.len() ==> utf8(s)[i] == s[i] as u8;
+pub broadcast axiom fn axiom_cp437_ascii(b: Seq<u8>)
+    requires forall|i: int| 0 <= i < b.len() ==> b[i] < 0x80,
+    ensures (#[trigger] cp437(b)).len() == b.len(), forall|i: int| 0 <= i < b.len() ==> cp437(b)[i] == b[i] as char;
